@@ -16,4 +16,9 @@ PoolThorough == PoolQuick \cup
 PoolChain == { N(1), N(2), Mk1("a", N(1)), Chr(0, 97), Chr(1, 98), Chr(2, 99), Chr(4, 100),
                Itm(0, N(1)), Itm(1, N(2)), Itm(2, N(1)), Ent(N(1), N(2)), Ent(N(2), N(2)),
                Byt(0, 1), Byt(1, 2), S({N(1)}) }
+\* branching histories (C03): two candidates at the "next" index of each sequence kind, so that one
+\* parent can be extended twice in different ways at the same position
+PoolBranchQ == { Chr(0, 97), Chr(1, 98), Chr(1, 99), Chr(2, 100), Chr(2, 101),
+                 Byt(0, 1), Byt(1, 2), Byt(1, 3), Itm(0, N(1)), Itm(1, N(2)), Itm(1, N(1)) }
+PoolBranchT == PoolBranchQ \cup { Chr(3, 100), Itm(2, N(1)), Ent(N(1), N(2)), Ent(N(1), N(3)), N(1) }
 =============================================================================
